@@ -857,7 +857,7 @@ func TestVF_C38(t *testing.T) {
 // issues the sentinel iff the client position differs from the stream top. Nothing is handed over after close.
 
 type vfC38MOp struct {
-	Kind   int // 0 publish, 1 check position, 2 arm handler gate, 3 release handler, 4 advance, 5 stream top moves on (loss), 6 close
+	Kind   int // 0 publish, 1 check position, 2 arm handler gate, 3 release handler, 4 advance, 5 stream top moves on (loss), 6 close, 7 the stream is re-created (new epoch, offsets restart at 1)
 	Size   int
 	Delta  bool
 	Behind int // check: client offset = top - Behind
@@ -885,6 +885,8 @@ func (o vfC38MOp) String() string {
 		return fmt.Sprintf("adv(%dms)", o.Ms)
 	case 5:
 		return "topMovesOn"
+	case 7:
+		return "newEpoch"
 	}
 	return "close"
 }
@@ -910,7 +912,7 @@ func vfC38MGen(rt *rapid.T) vfC38MCase {
 	}
 	n := rapid.IntRange(3, 24).Draw(rt, "nops")
 	for i := 0; i < n; i++ {
-		k := rapid.SampledFrom([]int{0, 0, 0, 0, 0, 1, 1, 1, 2, 2, 3, 4, 4, 5, 5, 6}).Draw(rt, "kind")
+		k := rapid.SampledFrom([]int{0, 0, 0, 0, 0, 1, 1, 1, 2, 2, 3, 4, 4, 5, 5, 6, 7}).Draw(rt, "kind")
 		o := vfC38MOp{Kind: k}
 		switch k {
 		case 0:
@@ -995,6 +997,8 @@ func vfC38MRun(t *testing.T, cs vfC38MCase, out *vfC38Out) string {
 		deltaOf := map[*Publication]bool{}
 		lastCheck := time.Now()
 		var off uint64
+		epochN := 1
+		epoch := "e1"
 		drops, detections, overLimitDetections := 0, 0, 0
 		pendingAtClose := false
 		maxSize := defaultChannelLayerQueueMaxSize
@@ -1012,8 +1016,9 @@ func vfC38MRun(t *testing.T, cs vfC38MCase, out *vfC38Out) string {
 				over := cs.Opts.enableQueue && m.messages.Size() > maxSize
 				node.mu.Lock()
 				node.top.Offset = off // the stream has it, whatever happens to the delivery
+				node.top.Epoch = epoch
 				node.mu.Unlock()
-				m.broadcastPublication(pub, StreamPosition{Offset: off, Epoch: "e1"}, o.Delta, nil)
+				m.broadcastPublication(pub, StreamPosition{Offset: off, Epoch: epoch}, o.Delta, nil)
 				lastCheck = time.Now()
 				if over {
 					drops++
@@ -1063,6 +1068,15 @@ func vfC38MRun(t *testing.T, cs vfC38MCase, out *vfC38Out) string {
 				node.mu.Lock()
 				node.top.Offset = off
 				node.mu.Unlock()
+			case 7:
+				// history and meta of the channel were dropped: the next publication starts a new epoch at offset 1
+				epochN++
+				epoch = fmt.Sprintf("e%d", epochN)
+				off = 0
+				node.mu.Lock()
+				node.top = StreamPosition{Offset: 0, Epoch: epoch}
+				node.mu.Unlock()
+				out.labels = append(out.labels, "stream_recreated_new_epoch")
 			case 6:
 				node.mu.Lock()
 				pendingAtClose = len(node.hands) < len(queued)
